@@ -16,7 +16,7 @@ def _p(text):
     return ast.parse(text, mode='eval').body
 
 
-def changed_recompute(rep, mod, rule):
+def changed_recompute(rep, mod, rule, only=None):
     f = find_def(mod, 'Specification.changed')
     site = 'Specification.changed'
     ss = normal(summaries(f))
@@ -106,6 +106,8 @@ def changed_recompute(rep, mod, rule):
         'v_attrs': 'the attribute memo _v_attrs is dropped on every path',
     }
     for k in prob:
+        if only is not None and k not in only:
+            continue
         rep.check(rule, site, not prob[k], texts[k] if not prob[k] else
                   {'problems': sorted(set(prob[k]))[:3]}, construct=k, node=f)
     # direction of the loops over the computed order (iro keeps the order)
@@ -366,6 +368,9 @@ def spec_get(rep, mod, rule_polarity, rule_memo):
             dn = fact_about(ps, direct)
             if dn is False:
                 hit += 1
+                if continues_after(ps, f, direct, 'None', False):
+                    probs.append('the walk continues after a direct definition was '
+                                 'found (a later definer would win)')
                 if ret != direct:
                     probs.append('a direct definition found but returns `%s`' % ret[:50])
                 if not (len(stores) == 1 and nt(stores[0].val) == direct):
@@ -398,3 +403,322 @@ def spec_get(rep, mod, rule_polarity, rule_memo):
               'memo entries are stored only for found descriptions, keyed by the '
               'name, on the specification itself' if not memo else
               {'problems': sorted(set(memo))}, construct='memo-store', node=f)
+
+
+# ---------------------------------------------------------------------------
+# helpers
+
+def fact_cmp(ps, a, b, op='is'):
+    """latest truth of `a <op> b` on the path (either operand order)"""
+    for c, t, _pos in ps.order[::-1]:
+        if c in ('%s %s %s' % (a, op, b), '%s %s %s' % (b, op, a)):
+            return t
+        try:
+            e = ast.parse(c, mode='eval').body
+        except SyntaxError:
+            continue
+        if nt(e) in ('%s %s %s' % (a, op, b), '%s %s %s' % (b, op, a)):
+            return t
+    return None
+
+
+def fact_indices(ps, a, b, op='is'):
+    """indices (into ps.order) of the facts `a <op> b`"""
+    want = ('%s %s %s' % (a, op, b), '%s %s %s' % (b, op, a))
+    out = []
+    for k in range(len(ps.order)):
+        c = ps.order[k][0]
+        if c in want:
+            out.append(k)
+            continue
+        try:
+            if nt(ast.parse(c, mode='eval').body) in want:
+                out.append(k)
+        except SyntaxError:
+            pass
+    return out
+
+
+def continues_after(ps, func, a, b, truth, op='is'):
+    """some fact `a <op> b` == truth on the path is established inside a loop
+    whose header can be reached again afterwards"""
+    cfg = cfg_of(func)
+    return any(ps.order[k][1] == truth and ps.reenters_loop(cfg, k)
+               for k in fact_indices(ps, a, b, op))
+
+
+def iterated(ps):
+    """sources whose loop body ran on this path"""
+    return [c[5:-1] for c, t, p in ps.order if t and c.startswith('ITER(')]
+
+
+def polarity_text(src):
+    """(base text, 'fwd'|'rev') of an iterated source text"""
+    e = ast.parse(src, mode='eval').body
+    base, d = iter_polarity(e)
+    return nt(base), d
+
+
+def loop_exits(func, base_text, kinds=(ast.Break, ast.Return)):
+    out = []
+    for lp in walk_local(func):
+        if isinstance(lp, ast.For):
+            b, d = iter_polarity(lp.iter, func)
+            if nt(b) == base_text or base_text in norm_src(lp.iter):
+                out += [n for n in walk_local(lp) if isinstance(n, kinds)]
+    return out
+
+
+def each_conditions(ps, src):
+    """conditions on the path that depend on the current member of src"""
+    e = 'EACH(%s)' % src
+    return [c for c, t, p in ps.order if e in c and not c.startswith('ITER(')]
+
+
+def all_paths(func):
+    return summaries(func, normal_only=False)
+
+
+# ---------------------------------------------------------------------------
+# C15 accessors
+
+IRO = 'self.__iro__'
+
+
+def names_and_descriptions(rep, mod, rule):
+    f = find_def(mod, 'InterfaceClass.namesAndDescriptions')
+    site = 'InterfaceClass.namesAndDescriptions'
+    ss = normal(summaries(f))
+    p_pol, p_dir = [], []
+    seen_all = seen_direct = 0
+    for ps in ss:
+        a = ps.fact('all')
+        ret = nt(ps.ret)
+        if a is False:
+            seen_direct += 1
+            if ret != 'self.__attrs.items()':
+                p_dir.append('all=False returns `%s`' % ret[:60])
+            continue
+        if a is None:
+            p_dir.append('a path does not test `all`')
+            continue
+        seen_all += 1
+        its = iterated(ps)
+        if not its:
+            if ret not in ('{}.items()', 'dict().items()'):
+                p_pol.append('without interfaces returns `%s`' % ret[:60])
+            continue
+        if len(its) != 1:
+            p_pol.append('iterates %s' % its)
+            continue
+        src = its[0]
+        base, d = polarity_text(src)
+        if base != IRO:
+            p_pol.append('inherited view built from `%s`' % src[:60])
+            continue
+        each = 'EACH(%s)' % src
+        direct = ('%s.namesAndDescriptions()' % each, '%s.namesAndDescriptions(False)' % each,
+                  '%s.namesAndDescriptions(all=False)' % each)
+        ups = [e for e in ps.events if e.kind == 'call' and isinstance(e.r.func, ast.Attribute)
+               and e.r.func.attr == 'update' and len(e.r.args) == 1]
+        okup = [e for e in ups if nt(e.r.args[0]) in direct or
+                (isinstance(e.r.args[0], ast.Call) and dotted(e.r.args[0].func) == 'dict'
+                 and e.r.args[0].args and nt(e.r.args[0].args[0]) in direct)]
+        if len(ups) != 1 or len(okup) != 1:
+            p_pol.append('collector is not one update() with the member\'s DIRECT '
+                         'attributes: %s' % [nt(e.r)[:70] for e in ups])
+            continue
+        if d != 'rev':
+            p_pol.append('walks __iro__ %s with a last-wins collector => the LAST '
+                         'definer wins (required: first in __iro__, as get())' % d)
+        coll = nt(okup[0].r.func.value)
+        if coll not in ('{}', 'dict()') or ret != coll + '.items()':
+            p_pol.append('returns `%s` (collector `%s`)' % (ret[:50], coll[:30]))
+        if each_conditions(ps, src):
+            p_pol.append('members filtered by %s' % each_conditions(ps, src)[:2])
+    if loop_exits(f, IRO):
+        p_pol.append('early exit from the walk')
+    if not seen_all or not seen_direct:
+        p_dir.append('all-paths %d, direct paths %d' % (seen_all, seen_direct))
+    rep.check(rule, site, not p_pol,
+              'all=True: walks __iro__ in reverse, updating one dict with each '
+              'interface\'s DIRECT attributes => the first definer in __iro__ wins, '
+              'as get()' if not p_pol else {'problems': sorted(set(p_pol))[:3]},
+              construct='polarity', node=f)
+    rep.check(rule, site, not p_dir, 'all=False returns only the direct attributes'
+              if not p_dir else {'problems': sorted(set(p_dir))[:3]},
+              construct='direct', node=f)
+
+
+def query_tagged_value(rep, mod, rule):
+    f = find_def(mod, 'InterfaceClass.queryTaggedValue')
+    site = 'InterfaceClass.queryTaggedValue'
+    P = 'EACH(%s).queryDirectTaggedValue(tag, _marker)' % IRO
+    probs = []
+    hit = miss = 0
+    for ps in normal(summaries(f)):
+        its = iterated(ps)
+        ret = nt(ps.ret)
+        if any(i != IRO for i in its):
+            probs.append('walks %s' % its)
+            continue
+        if its:
+            m = fact_cmp(ps, P, '_marker')
+            if m is None:
+                probs.append('the direct value is not compared with the sentinel')
+            elif m is False:
+                hit += 1
+                if continues_after(ps, f, P, '_marker', False):
+                    probs.append('the walk continues after a direct value was found')
+                if ret != P:
+                    probs.append('a direct value is found but `%s` is returned' % ret[:50])
+            else:
+                miss += 1
+                if ret != 'default':
+                    probs.append('no direct value but `%s` is returned' % ret[:50])
+            extra = [c for c in each_conditions(ps, IRO)
+                     if c not in ('%s is _marker' % P, '_marker is %s' % P)]
+            if extra:
+                probs.append('depends on %s' % extra[:2])
+        else:
+            miss += 1
+            if ret != 'default':
+                probs.append('no interface: returns `%s`' % ret[:50])
+    if not hit or not miss:
+        probs.append('hit paths %d, miss paths %d' % (hit, miss))
+    for lp in walk_local(f):
+        if isinstance(lp, ast.For):
+            b, d = iter_polarity(lp.iter, f)
+            if nt(b) == IRO and d != 'fwd':
+                probs.append('__iro__ walked backwards')
+    rep.check(rule, site, not probs,
+              'first interface of __iro__ that has the tag directly wins (a '
+              'stored None still wins: sentinel test)' if not probs else
+              {'problems': sorted(set(probs))[:3]}, construct='first-definer', node=f)
+    g = find_def(mod, 'InterfaceClass.getTaggedValue')
+    Q = ('self.queryTaggedValue(tag, default=_marker)', 'self.queryTaggedValue(tag, _marker)')
+    probs = []
+    n = 0
+    for ps in all_paths(g):
+        if ps.kind == 'raise' and ps.ret_node is None:
+            continue
+        q = [x for x in Q if fact_cmp(ps, x, '_marker') is not None]
+        if not q:
+            probs.append('result not compared with the sentinel')
+            continue
+        n += 1
+        m = fact_cmp(ps, q[0], '_marker')
+        if m and not (ps.kind == 'raise' and nt(ps.raised) == 'KeyError(tag)'):
+            probs.append('missing tag does not raise KeyError(tag)')
+        if not m and not (ps.kind == 'return' and nt(ps.ret) == q[0]):
+            probs.append('found value not returned')
+    rep.check(rule, 'InterfaceClass.getTaggedValue', not probs and n >= 2,
+              'getTaggedValue = queryTaggedValue or KeyError' if not probs else
+              {'problems': sorted(set(probs))}, construct='via-query', node=g)
+
+
+def tagged_value_tags(rep, mod, rule):
+    f = find_def(mod, 'InterfaceClass.getTaggedValueTags')
+    probs = []
+    n = 0
+    for ps in normal(summaries(f)):
+        its = iterated(ps)
+        ret = nt(ps.ret)
+        if any(polarity_text(i)[0] != IRO for i in its):
+            probs.append('walks %s' % its)
+            continue
+        if not its:
+            if ret not in ('set()',):
+                probs.append('no interface: returns `%s`' % ret)
+            continue
+        n += 1
+        each = 'EACH(%s)' % its[0]
+        ups = [e for e in ps.events if e.kind == 'call' and isinstance(e.r.func, ast.Attribute)
+               and e.r.func.attr in ('update',) and len(e.r.args) == 1 and
+               nt(e.r.args[0]) == '%s.getDirectTaggedValueTags()' % each]
+        if len(ups) != 1 or nt(ups[0].r.func.value) != 'set()' or ret != 'set()':
+            probs.append('direct tags of a member not added to the returned set')
+        if each_conditions(ps, its[0]):
+            probs.append('members filtered by %s' % each_conditions(ps, its[0])[:2])
+    if loop_exits(f, IRO):
+        probs.append('early exit from the walk')
+    rep.check(rule, 'InterfaceClass.getTaggedValueTags', not probs and n >= 1,
+              'union of the direct tags of every interface of __iro__' if not probs
+              else {'problems': sorted(set(probs))}, construct='union', node=f)
+
+
+def validate_invariants(rep, mod, rule):
+    f = find_def(mod, 'InterfaceClass.validateInvariants')
+    site = 'InterfaceClass.validateInvariants'
+    obj, errors = f.args.args[1].arg, f.args.args[2].arg
+    hnames = {h.name for h in walk_local(f) if isinstance(h, ast.ExceptHandler) and h.name}
+    probs = []
+    ran = collected = reraised = raised_all = clean = 0
+    for ps in all_paths(f):
+        if ps.kind == 'raise' and ps.ret_node is None:
+            continue            # exception passing through
+        its = iterated(ps)
+        outer = [i for i in its if polarity_text(i)[0] == IRO]
+        other = [i for i in its if polarity_text(i)[0] != IRO]
+        inner = None
+        for i in other:
+            ok_inner = any(i == "EACH(%s).queryDirectTaggedValue('invariants', ())" % o
+                           for o in outer)
+            if not ok_inner:
+                probs.append('iterates `%s`' % i[:70])
+            else:
+                inner = i
+        for o in outer:
+            if each_conditions(ps, o):
+                probs.append('interfaces/invariants filtered by %s' % each_conditions(ps, o)[:1])
+        if inner is not None:
+            call = 'EACH(%s)(%s)' % (inner, obj)
+            cs = [e for e in ps.events if e.kind == 'call' and nt(e.r) == call]
+            if len(cs) != 1:
+                probs.append('an invariant of a visited interface is not run')
+            else:
+                ran += 1
+        exc = ps.fact('EXCEPT(Invalid)')
+        if exc:
+            none = fact_cmp(ps, errors, 'None')
+            if none is None:
+                probs.append('handler does not test whether a list was given')
+            elif none:
+                if not (ps.kind == 'raise' and ps.raised is None):
+                    probs.append('without a list the failure is not re-raised')
+                reraised += 1
+                continue
+            else:
+                aps = [e for e in ps.events if e.kind == 'call' and any(
+                    nt(e.r) == '%s.append(%s)' % (errors, h) for h in hnames)]
+                if len(aps) != 1:
+                    probs.append('failure not appended to the given list')
+                if ps.kind == 'raise' and ps.raised is None:
+                    probs.append('re-raises although a list was given (stops at '
+                                 'the first failure)')
+                collected += 1
+        elif any(c.startswith('EXCEPT(') for c, t, p in ps.order):
+            probs.append('handles %s' % [c for c, t, p in ps.order if c.startswith('EXCEPT(')])
+        # ending
+        last = [(c, t) for c, t, p in ps.order if c == errors]
+        if not last:
+            probs.append('a path ends without testing the collected errors')
+            continue
+        if last[-1][1]:
+            if not (ps.kind == 'raise' and nt(ps.raised) == 'Invalid(%s)' % errors):
+                probs.append('collected errors are not raised as Invalid(errors)')
+            raised_all += 1
+        else:
+            if ps.kind == 'raise':
+                probs.append('raises without errors')
+            clean += 1
+    if loop_exits(f, IRO):
+        probs.append('early exit from the walk over __iro__')
+    if not (ran and collected and reraised and raised_all and clean):
+        probs.append('path kinds: ran %d collected %d reraised %d raised %d clean %d'
+                     % (ran, collected, reraised, raised_all, clean))
+    rep.check(rule, site, not probs,
+              'every direct invariant of every interface of __iro__ is run; '
+              'Invalid is appended when a list is given, else re-raised; after the '
+              'walk raises Invalid(errors) iff any' if not probs else
+              {'problems': sorted(set(probs))[:4]}, construct='collect-all', node=f)
